@@ -604,6 +604,9 @@ func (g *Gen) intents() []intent {
 				kind = "sms"
 			}
 			st := SymStep{Kind: "req", Req: &SymReq{Browser: b, Method: "POST", Route: "EmailVerify", Arg: kind}}
+			if g.rng.Intn(100) < 15 { // the page that offers to send the e-mail
+				return one(SymStep{Kind: "req", Req: &SymReq{Browser: b, Method: "GET", Route: "EmailVerify", Arg: kind}})
+			}
 			tok := Desc{K: "sessval", B: b, V: "twofactor_auth_token"}
 			switch r := g.rng.Intn(100); {
 			case r < 12:
@@ -1180,6 +1183,37 @@ func (g *Gen) scenarios() []intent {
 			b := g.browser()
 			return []SymStep{g.loginStep(b, m, Desc{K: "pw", U: m}, g.rng.Intn(3) == 0), g.loginStep(b, v, Desc{K: "pw", U: m}, false),
 				g.loginStep(b, v, Desc{K: "pw", U: v}, false)}
+		})
+	}
+	if c.has("auth") && c.Sms {
+		// disabling SMS 2FA properly: fully logged in, ask for a code, present it (or a recovery code); afterwards
+		// a password login is no longer parked
+		add(boost(2, "twofactor"), func() []SymStep {
+			var u string
+			for _, n := range g.names {
+				if a, ok := g.r.acc[n]; ok {
+					if usr, ok := g.r.w.st.users[a.PID]; ok && usr.SMSPhoneNumber != "" && !(c.Totp && usr.TOTPSecretKey != "" && !c.SmsFirst) {
+						u = n
+					}
+				}
+			}
+			if u == "" {
+				return nil
+			}
+			b := g.browser()
+			out := []SymStep{g.loginStep(b, u, Desc{K: "pw", U: u}, false),
+				g.req(b, "POST", "SmsValidate", []KV{{"code", Desc{K: "sessval", B: b, V: "sms_secret"}}}),
+				{Kind: "tick", D: 15}, g.req(b, "GET", "SmsRemove", nil), g.req(b, "POST", "SmsRemove", nil)}
+			switch g.rng.Intn(4) {
+			case 0:
+				out = append(out, g.req(b, "POST", "SmsRemove", []KV{{"recovery_code", Desc{K: "rc", U: u, I: g.rng.Intn(2)}}}))
+			case 1:
+				out = append(out, g.req(b, "POST", "SmsRemove", []KV{{"code", lit("000000")}}),
+					g.req(b, "POST", "SmsRemove", []KV{{"code", Desc{K: "sessval", B: b, V: "sms_secret"}}}))
+			default:
+				out = append(out, g.req(b, "POST", "SmsRemove", []KV{{"code", Desc{K: "sessval", B: b, V: "sms_secret"}}}))
+			}
+			return append(out, g.loginStep(g.browser(), u, Desc{K: "pw", U: u}, false))
 		})
 	}
 	if c.has("auth") && c.Totp {
